@@ -499,10 +499,16 @@ impl ItemizedBlock {
             line_start = itemized_block_quote_start(line, line_start, 2);
             indent = line_start.len();
         }
+        // `indent` counts characters (the marker may be indented with white space of several
+        // bytes); the slices need the matching byte offset.
+        let byte_indent = line
+            .char_indices()
+            .nth(indent)
+            .map_or(line.len(), |(offset, _)| offset);
         Some(ItemizedBlock {
-            lines: vec![line[indent..].to_string()],
+            lines: vec![line[byte_indent..].to_string()],
             indent,
-            opener: line[..indent].to_string(),
+            opener: line[..byte_indent].to_string(),
             line_start,
         })
     }
